@@ -751,6 +751,666 @@ fn run(v: &Value) -> Result<String, String> {
             }
             Ok(format!("{total} bulk numeric cases held"))
         }
+        "wire_sweep" => {
+            // Bounded stand-in for C01/C02: an independent oracle of the REPE v1 layout against every emission
+            // route and every parser / stream reader, over boundary header values, payload sizes 0..3 and 70,
+            // capacity relations, chunked sinks, truncation at every byte position and structured mutations.
+            use std::io::{Read as _, Write as _};
+            fn oracle_header(h: &repe::Header) -> Vec<u8> {
+                let mut o = Vec::new();
+                o.extend_from_slice(&h.length.to_le_bytes());
+                o.extend_from_slice(&h.spec.to_le_bytes());
+                o.push(h.version);
+                o.push(h.notify);
+                o.extend_from_slice(&h.reserved.to_le_bytes());
+                o.extend_from_slice(&h.id.to_le_bytes());
+                o.extend_from_slice(&h.query_length.to_le_bytes());
+                o.extend_from_slice(&h.body_length.to_le_bytes());
+                o.extend_from_slice(&h.query_format.to_le_bytes());
+                o.extend_from_slice(&h.body_format.to_le_bytes());
+                o.extend_from_slice(&h.ec.to_le_bytes());
+                o
+            }
+            // oracle parse: Ok((header fields equal, q, b)) iff magic ok, consistent, whole frame present
+            fn oracle_parse(buf: &[u8], exact: bool) -> Option<(usize, usize)> {
+                if buf.len() < 48 { return None; }
+                let g = |a: usize, n: usize| { let mut x = 0u128; for i in 0..n { x |= (buf[a + i] as u128) << (8 * i); } x };
+                let (len, spec, q, b) = (g(0, 8), g(8, 2), g(24, 8), g(32, 8));
+                if spec != 0x1507 || len != 48 + q + b { return None; }
+                if (buf.len() as u128) < len { return None; }
+                if exact && buf.len() as u128 != len { return None; }
+                Some((q as usize, b as usize))
+            }
+            struct Chunky { out: Vec<u8>, max: usize }
+            impl std::io::Write for Chunky {
+                fn write(&mut self, b: &[u8]) -> std::io::Result<usize> { let n = b.len().min(self.max); self.out.extend_from_slice(&b[..n]); Ok(n) }
+                fn flush(&mut self) -> std::io::Result<()> { Ok(()) }
+            }
+            struct Chunked<'a> { data: &'a [u8], pos: usize, step: usize }
+            impl std::io::Read for Chunked<'_> {
+                fn read(&mut self, b: &mut [u8]) -> std::io::Result<usize> {
+                    let n = b.len().min(self.step).min(self.data.len() - self.pos);
+                    b[..n].copy_from_slice(&self.data[self.pos..self.pos + n]);
+                    self.pos += n;
+                    Ok(n)
+                }
+            }
+            let rt = tokio::runtime::Builder::new_current_thread().enable_all().build().unwrap();
+            let edge64 = [0u64, 1, 47, 48, 49, 255, 1 << 31, 1 << 32, 1 << 62, 1 << 63, u64::MAX - 48, u64::MAX - 47, u64::MAX];
+            let mut cases = 0usize;
+            // ---- emission routes ----
+            for &ql in &[0usize, 1, 3, 70] {
+                for &bl in &[0usize, 1, 2, 70] {
+                    for variant in 0..6u32 {
+                        let q: Vec<u8> = (0..ql).map(|i| (i * 3 + 1) as u8).collect();
+                        let b: Vec<u8> = (0..bl).map(|i| (i * 5 + 2) as u8).collect();
+                        let mut h = repe::Header::new();
+                        h.id = edge64[(variant as usize * 2 + 1) % edge64.len()];
+                        h.notify = [0u8, 1, 2, 255, 7, 0][variant as usize];
+                        h.reserved = [0u32, 1, u32::MAX, 0x8000_0000, 5, 0][variant as usize];
+                        h.query_format = [0u16, 1, 2, 0x7777, u16::MAX, 1][variant as usize];
+                        h.body_format = [0u16, 1, 2, 3, 0x1234, u16::MAX][variant as usize];
+                        h.ec = [0u32, 1, 9, 4096, u32::MAX, 6][variant as usize];
+                        h.version = [1u8, 1, 2, 0, 255, 1][variant as usize];
+                        h.query_length = ql as u64;
+                        h.body_length = bl as u64;
+                        h.length = 48 + ql as u64 + bl as u64;
+                        let m = repe::Message { header: h, query: q.clone(), body: b.clone() };
+                        let mut expect = oracle_header(&h);
+                        expect.extend_from_slice(&q);
+                        expect.extend_from_slice(&b);
+                        if m.to_vec() != expect { return Err(format!("to_vec differs from the REPE v1 layout (q={ql}, b={bl}, variant {variant})")); }
+                        for extra in [0usize, 47, 48 + ql - 1 + (ql == 0) as usize, 48 + ql, 48 + ql + 1, 4096] {
+                            let mut body = Vec::with_capacity(bl + extra);
+                            body.extend_from_slice(&b);
+                            let m2 = repe::Message { header: h, query: q.clone(), body };
+                            if m2.into_wire_bytes() != expect { return Err(format!("into_wire_bytes differs (q={ql}, b={bl}, spare capacity {extra})")); }
+                        }
+                        for max in [1usize, 7, 48, 1 << 20] {
+                            let mut s1 = Chunky { out: Vec::new(), max };
+                            m.write_to(&mut s1).map_err(|e| e.to_string())?;
+                            let mut s2 = Chunky { out: Vec::new(), max };
+                            repe::write_message(&mut s2, &m).map_err(|e| e.to_string())?;
+                            let mut s3 = Chunky { out: Vec::new(), max };
+                            repe::write_message_streaming(&mut s3, h, &q, bl as u64, |w| w.write_all(&b)).map_err(|e| e.to_string())?;
+                            if s1.out != expect || s2.out != expect || s3.out != expect {
+                                return Err(format!("an emission route differs from to_vec on a sink accepting {max} bytes per write (q={ql}, b={bl}): write_to {} bytes, write_message {} bytes, streaming {} bytes, expected {}", s1.out.len(), s2.out.len(), s3.out.len(), expect.len()));
+                            }
+                        }
+                        let mut a = Vec::new();
+                        rt.block_on(repe::async_io::write_message_async(&mut a, &m)).map_err(|e| e.to_string())?;
+                        if a != expect { return Err("write_message_async differs from to_vec".into()); }
+                        // ---- parsers and readers on the frame, truncated / extended at every position ----
+                        for cut in 0..=expect.len() + 2 {
+                            let mut buf = expect.clone();
+                            if cut <= expect.len() { buf.truncate(cut); } else { buf.extend_from_slice(&[0xAA; 2][..cut - expect.len()]); }
+                            for exact in [false, true] {
+                                let want = oracle_parse(&buf, exact);
+                                let got_m = if exact { repe::Message::from_slice_exact(&buf) } else { repe::Message::from_slice(&buf) };
+                                let got_v = if exact { repe::MessageView::from_slice_exact(&buf) } else { repe::MessageView::from_slice(&buf) };
+                                match (&got_m, &got_v, want) {
+                                    (Ok(mm), Ok(vv), Some((wq, wb))) => {
+                                        if mm.query != buf[48..48 + wq] || mm.body != buf[48 + wq..48 + wq + wb] || vv.query != &buf[48..48 + wq] || vv.body != &buf[48 + wq..48 + wq + wb] || mm.header != h || vv.header != h {
+                                            return Err(format!("a parser returned bytes/fields that are not the input's (len {}, exact={exact})", buf.len()));
+                                        }
+                                    }
+                                    (Err(_), Err(_), None) => {}
+                                    _ => return Err(format!("parser acceptance differs from the oracle on a {}-byte buffer of a {}-byte frame (exact={exact}): Message {:?}, View {:?}, oracle {:?}", buf.len(), expect.len(), got_m.is_ok(), got_v.is_ok(), want.is_some())),
+                                }
+                            }
+                            if cut <= expect.len() {
+                                for step in [1usize, 5, 1 << 20] {
+                                    let whole = cut == expect.len();
+                                    let r1 = repe::read_message(&mut Chunked { data: &buf, pos: 0, step });
+                                    let mut into = Vec::new();
+                                    let r2 = repe::read_message_into(&mut Chunked { data: &buf, pos: 0, step }, &mut into);
+                                    let r3 = rt.block_on(repe::async_io::read_message_async(&mut &buf[..]));
+                                    let mut into2 = Vec::new();
+                                    let r4 = rt.block_on(repe::async_io::read_message_into_async(&mut &buf[..], &mut into2));
+                                    if r1.is_ok() != whole || r2.is_ok() != whole || r3.is_ok() != whole || r4.is_ok() != whole {
+                                        return Err(format!("a stream reader's outcome on a stream cut at byte {cut} of {} is wrong: read_message {:?}, read_message_into {:?}, async {:?}, into_async {:?} (Ok expected: {whole})", expect.len(), r1.is_ok(), r2.is_ok(), r3.is_ok(), r4.is_ok()));
+                                    }
+                                    if whole && (r1.unwrap().to_vec() != expect || into != expect || r3.unwrap().to_vec() != expect || into2 != expect) {
+                                        return Err("a stream reader returned bytes that differ from the stream".into());
+                                    }
+                                }
+                            }
+                            cases += 1;
+                        }
+                    }
+                }
+            }
+            // ---- hostile headers: every combination of boundary values in the three length fields ----
+            for &len in &edge64 { for &q in &edge64 { for &b in &edge64 {
+                let mut h = repe::Header::new();
+                h.length = len; h.query_length = q; h.body_length = b;
+                let mut buf = oracle_header(&h);
+                buf.extend_from_slice(&[7u8; 64]);
+                for n in [48usize, 49, 96, 112] {
+                    let want = oracle_parse(&buf[..n], false).is_some();
+                    let d = repe::Header::decode(&buf[..48]).is_ok();
+                    let consistent = (len as u128) == 48 + q as u128 + b as u128;
+                    if d != consistent { return Err(format!("Header::decode accepted={d} for length={len} q={q} b={b}")); }
+                    if repe::Message::from_slice(&buf[..n]).is_ok() != want || repe::MessageView::from_slice(&buf[..n]).is_ok() != want {
+                        return Err(format!("a parser's acceptance differs from the oracle for length={len} q={q} b={b} on {n} bytes"));
+                    }
+                    // stream readers: declared sizes are <= 64 bytes or >= 2^62 here, so the outcome does not depend on memory
+                    let small = (q as u128 + b as u128) <= 64;
+                    if small || q >= 1 << 62 || b >= 1 << 62 || !consistent {
+                        let r = repe::read_message(&mut &buf[..n]);
+                        let mut into = Vec::new();
+                        let r2 = repe::read_message_into(&mut &buf[..n], &mut into);
+                        let whole = consistent && (n as u128) >= 48 + q as u128 + b as u128;
+                        if r.is_ok() != whole || r2.is_ok() != whole { return Err(format!("a stream reader's outcome is wrong for length={len} q={q} b={b} on {n} bytes")); }
+                    }
+                    cases += 1;
+                }
+            } } }
+            let _ = std::io::sink().flush();
+            let mut dummy = [0u8; 1];
+            let _ = std::io::empty().read(&mut dummy);
+            Ok(format!("{cases} wire cases held"))
+        }
+        "transfer_sweep" => {
+            // Bounded stand-in for C11/C13: every history of length <= `len` over a small operation alphabet,
+            // through the public TransferControl API, against a sequential model over mathematical integers.
+            use repe::stream::{CreditError, ReconnectOutcome, ResumeRejection, TransferControl};
+            use std::time::Duration;
+            let len = v.get("len").and_then(|x| x.as_u64()).unwrap_or(4) as usize;
+            #[derive(Clone, Debug)]
+            enum Op { Sent(u64), Ack(u32, u64), Cancel(&'static str), Advance(u32), Push(u64, usize), Resume(u32, u64), Credit(u64), Reconnect }
+            let mut ops = Vec::new();
+            for s in [1u64, 2, 5, u64::MAX] { ops.push(Op::Sent(s)); }
+            for f in [0u32, 1] { for o in [0u64, 1, 2, 9, u64::MAX] { ops.push(Op::Ack(f, o)); } }
+            for r in ["", "a", "b"] { ops.push(Op::Cancel(r)); }
+            ops.push(Op::Advance(1));
+            for (dl, wl) in [(1u64, 1usize), (2, 3)] { ops.push(Op::Push(dl, wl)); }
+            for f in [0u32, 1] { for o in [0u64, 1, 2, 3] { ops.push(Op::Resume(f, o)); } }
+            for c in [1u64, 4] { ops.push(Op::Credit(c)); }
+            ops.push(Op::Reconnect);
+            let n = ops.len();
+            let window = 4u64;
+            let cap = 4u64;
+            let mut idx = vec![0usize; len];
+            let mut count = 0u64;
+            loop {
+                let ctl = TransferControl::with_replay_capacity(window, cap);
+                // model
+                let (mut sent, mut acked, mut file) = (0u128, 0u128, 0u32);
+                let mut cancelled: Option<String> = None;
+                let mut ring: Vec<(u64, u64, usize)> = Vec::new(); // (offset, data_len, wire_len)
+                let mut next_off = 0u64;
+                let mut pending: Option<u64> = None;
+                for (step, &i) in idx.iter().enumerate() {
+                    let op = ops[i].clone();
+                    let ctx = || format!("history {:?} step {step} ({op:?})", idx.iter().map(|j| format!("{:?}", ops[*j])).collect::<Vec<_>>());
+                    match op.clone() {
+                        Op::Sent(s) => { ctl.record_sent(s); if (s as u128) > sent { sent = s as u128; } }
+                        Op::Ack(f, o) => { ctl.record_ack(f, o); if f == file { let c = (o as u128).min(sent); if c > acked { acked = c; } } }
+                        Op::Cancel(r) => { ctl.cancel(r); if cancelled.is_none() { cancelled = Some(r.to_string()); } }
+                        Op::Advance(f) => { ctl.advance_to_file(f); file = f; sent = 0; acked = 0; ring.clear(); next_off = 0; pending = None; }
+                        Op::Push(dl, wl) => {
+                            ctl.push_replay(next_off, dl, false, vec![0u8; wl]);
+                            ring.push((next_off, dl, wl));
+                            next_off += dl;
+                            while ring.iter().map(|c| c.2 as u64).sum::<u64>() > cap && ring.len() > 1 { ring.remove(0); }
+                        }
+                        Op::Resume(f, o) => {
+                            let covers = if ring.is_empty() { o == 0 } else { ring.iter().any(|c| c.0 == o) || ring.last().map(|c| c.0 + c.1) == Some(o) };
+                            let want = if cancelled.is_some() { Err(ResumeRejection::Cancelled) }
+                                else if f != file { Err(ResumeRejection::WrongFileIndex { requested: f, current: file }) }
+                                else if !covers { Err(ResumeRejection::OutOfWindow) } else { Ok(o) };
+                            let (peer, _rx) = { struct S; impl repe::PeerSink for S { fn send_notify(&self, _m: &str, _b: repe::NotifyBody) -> Result<(), repe::PeerSendError> { Ok(()) } } (repe::PeerHandle::new(repe::PeerId(1), std::sync::Arc::new(S)), ()) };
+                            let got = ctl.request_resume(peer, f, o);
+                            if got != want { return Err(format!("{}: request_resume returned {got:?}, model says {want:?}", ctx())); }
+                            if want.is_ok() {
+                                pending = Some(o);
+                                if (o as u128) > acked && (o as u128) <= sent { acked = o as u128; }
+                                let tail: Vec<u64> = ctl.replay_chunks_from(o).iter().map(|c| c.offset).collect();
+                                let want_tail: Vec<u64> = ring.iter().filter(|c| c.0 >= o).map(|c| c.0).collect();
+                                if tail != want_tail { return Err(format!("{}: replay tail offsets {tail:?}, model says {want_tail:?}", ctx())); }
+                                if let Some(first) = tail.first() { if *first != o { return Err(format!("{}: accepted resume at {o} but the replay starts at {first}", ctx())); } }
+                            }
+                        }
+                        Op::Credit(c) => {
+                            let r = ctl.wait_for_credit(c, std::time::Instant::now());
+                            let inflight = sent - acked;
+                            let fits = inflight == 0 || inflight + c as u128 <= window as u128;
+                            match (&r, &cancelled) {
+                                (Err(CreditError::Cancelled(x)), Some(y)) if x == y => {}
+                                (Ok(()), None) if fits => {}
+                                (Err(CreditError::Timeout), None) if !fits => {}
+                                _ => return Err(format!("{}: wait_for_credit returned {r:?}; model: cancelled={cancelled:?}, in_flight={inflight}, fits={fits}", ctx())),
+                            }
+                        }
+                        Op::Reconnect => {
+                            let r = ctl.wait_for_reconnect(Duration::from_millis(0));
+                            match (&r, &cancelled, pending) {
+                                (ReconnectOutcome::Cancelled(x), Some(y), _) if x == y => {}
+                                (ReconnectOutcome::ResumeReady(p), None, Some(o)) if p.resume_at_offset == o => { pending = None; }
+                                (ReconnectOutcome::Timeout, None, None) => {}
+                                _ => return Err(format!("{}: wait_for_reconnect returned {r:?}; model: cancelled={cancelled:?}, pending={pending:?}", ctx())),
+                            }
+                        }
+                    }
+                    let (s, a) = ctl.offsets();
+                    if s as u128 != sent || a as u128 != acked || a > s {
+                        return Err(format!("{}: offsets (sent, acked) = ({s}, {a}), model says ({sent}, {acked})", ctx()));
+                    }
+                    if ctl.cancel_reason() != cancelled { return Err(format!("{}: cancel reason {:?}, first reason was {cancelled:?}", ctx(), ctl.cancel_reason())); }
+                }
+                count += 1;
+                let mut k = 0;
+                loop {
+                    if k == len { return Ok(format!("{count} histories of length {len} over {n} operations held")); }
+                    idx[k] += 1;
+                    if idx[k] < n { break; }
+                    idx[k] = 0;
+                    k += 1;
+                }
+            }
+        }
+        "client_id_stress" => {
+            // Bounded stand-in for the id-distinctness half of C04 (a schedule property the contract family cannot
+            // express): `threads` callers share clones of one client and issue `per_thread` notifies each at the same
+            // time; a recording server lists every id it reads. On code where id allocation is one atomic
+            // read-modify-write no schedule can produce a duplicate, so this never alarms on such code; on a
+            // racy allocation detection is probabilistic (stated in the bound).
+            let threads = v.get("threads").and_then(|x| x.as_u64()).unwrap_or(8) as usize;
+            let per = v.get("per_thread").and_then(|x| x.as_u64()).unwrap_or(20000) as usize;
+            let which = v.get("client").and_then(|x| x.as_str()).unwrap_or("blocking");
+            let listener = std::net::TcpListener::bind("127.0.0.1:0").map_err(|e| e.to_string())?;
+            let addr = listener.local_addr().unwrap();
+            let server = std::thread::spawn(move || {
+                let (stream, _) = listener.accept().unwrap();
+                let mut reader = std::io::BufReader::with_capacity(1 << 16, stream);
+                let mut ids: Vec<u64> = Vec::new();
+                while let Ok(req) = repe::read_message(&mut reader) {
+                    ids.push(req.header.id);
+                }
+                ids
+            });
+            match which {
+                "blocking" => {
+                    let client = repe::Client::connect(addr).map_err(|e| e.to_string())?;
+                    let start = std::sync::Arc::new(std::sync::Barrier::new(threads));
+                    let mut hs = Vec::new();
+                    for _ in 0..threads {
+                        let c = client.clone();
+                        let st = start.clone();
+                        hs.push(std::thread::spawn(move || {
+                            st.wait();
+                            for _ in 0..per {
+                                if c.notify_json("/tick", &serde_json::json!({})).is_err() { break; }
+                            }
+                        }));
+                    }
+                    for h in hs { let _ = h.join(); }
+                    drop(client);
+                }
+                "async" => {
+                    let rt = tokio::runtime::Builder::new_multi_thread().worker_threads(threads).enable_all().build().unwrap();
+                    rt.block_on(async {
+                        let client = repe::AsyncClient::connect(addr).await.map_err(|e| e.to_string())?;
+                        let mut hs = Vec::new();
+                        for _ in 0..threads {
+                            let c = client.clone();
+                            hs.push(tokio::spawn(async move {
+                                for _ in 0..per {
+                                    if c.notify_json("/tick", &serde_json::json!({})).await.is_err() { break; }
+                                }
+                            }));
+                        }
+                        for h in hs { let _ = h.await; }
+                        drop(client);
+                        Ok::<(), String>(())
+                    })?;
+                    drop(rt);
+                }
+                other => panic!("unknown client kind {other}"),
+            }
+            let ids = server.join().map_err(|_| "server thread panicked".to_string())?;
+            let distinct: std::collections::HashSet<u64> = ids.iter().copied().collect();
+            if distinct.len() != ids.len() {
+                return Err(format!("{} of {} request ids issued on one {which} connection were issued more than once", ids.len() - distinct.len(), ids.len()));
+            }
+            if ids.len() != threads * per { return Err(format!("server saw {} frames, {} were sent", ids.len(), threads * per)); }
+            Ok(format!("{} ids on one {which} connection, all distinct", ids.len()))
+        }
+        "route_shape_sweep" => {
+            // Bounded stand-in for C07: routers built in every registration order of {exact routes, registry mount,
+            // struct mount, forwarding middleware}; every path over a small alphabet up to `maxlen` plus deep and
+            // prefix-sharing paths; an independent oracle for resolution (exact > mount at '/' boundary), for the
+            // pointer/segments the mount is handed (RFC 6901 tokens), and owned-vs-borrowed handler equality for the
+            // built-in handler kinds over every body-format code class and a set of body byte strings.
+            use repe::{Message, MessageView, Next, RepeError, RepeStruct, Router, Registry};
+            use serde_json::{json, Value};
+            use std::sync::{Arc, Mutex, atomic::{AtomicUsize, Ordering}};
+            let maxlen = v.get("maxlen").and_then(|x| x.as_u64()).unwrap_or(5) as usize;
+            struct Rec { seen: Arc<Mutex<Vec<Vec<String>>>> }
+            impl RepeStruct for Rec {
+                fn repe_handle(&mut self, segments: &[&str], _body: Option<Value>) -> Result<Option<Value>, repe::StructError> {
+                    self.seen.lock().unwrap().push(segments.iter().map(|s| s.to_string()).collect());
+                    Ok(Some(json!("struct")))
+                }
+            }
+            // oracle: RFC 6901 tokens of a pointer ("" -> none); None for a malformed escape (outside the quantifier)
+            fn tokens(ptr: &str) -> Option<Vec<String>> {
+                if ptr.is_empty() { return Some(vec![]); }
+                let s = ptr.strip_prefix('/').unwrap_or(ptr);
+                let mut out = Vec::new();
+                for raw in s.split('/') {
+                    let b: Vec<char> = raw.chars().collect();
+                    let mut t = String::new();
+                    let mut i = 0;
+                    while i < b.len() {
+                        if b[i] == '~' {
+                            match b.get(i + 1) { Some('0') => t.push('~'), Some('1') => t.push('/'), _ => return None }
+                            i += 2;
+                        } else { t.push(b[i]); i += 1; }
+                    }
+                    out.push(t);
+                }
+                Some(out)
+            }
+            fn mounted(prefix: &str, path: &str) -> bool {
+                let (p, s) = (prefix.as_bytes(), path.as_bytes());
+                p.is_empty() || p == s || (s.len() > p.len() && &s[..p.len()] == p && s[p.len()] == b'/')
+            }
+            fn canonical(toks: &[String]) -> String {
+                if toks.is_empty() { return "/".into(); }
+                toks.iter().map(|t| format!("/{}", t.replace('~', "~0").replace('/', "~1"))).collect()
+            }
+            let exact = ["/r/x", "/s/x/x", "/e", "/rx"];
+            // paths
+            let alphabet = ['/', 'r', 's', 'x', '~', '0', '1'];
+            let mut paths: Vec<String> = vec![String::new()];
+            let mut frontier = vec![String::new()];
+            for _ in 0..maxlen {
+                let mut next = Vec::new();
+                for p in &frontier { for c in alphabet { let mut q = p.clone(); q.push(c); next.push(q); } }
+                paths.extend(next.iter().cloned());
+                frontier = next;
+            }
+            for n in 0..=40usize {
+                let mut deep = String::from("/s");
+                for k in 0..n { deep.push('/'); deep.push_str(&format!("k{k}")); }
+                paths.push(deep.clone());
+                paths.push(format!("{deep}/"));
+                paths.push(format!("{deep}/a~1b~0c"));
+                let mut deep_r = String::from("/r");
+                for k in 0..n { deep_r.push('/'); deep_r.push_str(&format!("k{k}")); }
+                paths.push(deep_r);
+            }
+            for extra in ["/r~1x", "/s~0", "/sx/x", "/r/x/", "/s/x/x/", "/e/", "/é", "/r/é/~1", "/s/é/~0é"] { paths.push(extra.to_string()); }
+            // registration orders: 0 = exact routes, 1 = registry mount, 2 = struct mount, 3 = middleware
+            let mut orders: Vec<Vec<u8>> = Vec::new();
+            fn perms(cur: &mut Vec<u8>, rest: &mut Vec<u8>, out: &mut Vec<Vec<u8>>) {
+                if rest.is_empty() { out.push(cur.clone()); return; }
+                for i in 0..rest.len() { let x = rest.remove(i); cur.push(x); perms(cur, rest, out); cur.pop(); rest.insert(i, x); }
+            }
+            perms(&mut Vec::new(), &mut vec![0, 1, 2, 3], &mut orders);
+            orders.push(vec![0, 1, 2]); // no middleware at all
+            let mut cases = 0usize;
+            for (oi, order) in orders.iter().enumerate() {
+                let hits = Arc::new(AtomicUsize::new(0));
+                let seen = Arc::new(Mutex::new(Vec::new()));
+                let registry = Arc::new(Registry::new());
+                let mut router = Router::new();
+                for step in order {
+                    match step {
+                        0 => { for e in exact { let tag = e.to_string(); router = router.with_json(e, move |_v| Ok(json!(format!("exact:{tag}")))); } }
+                        1 => { router.register_registry("/r", registry.clone()); }
+                        2 => { router.register_struct("/s", Rec { seen: seen.clone() }); }
+                        _ => { let h = hits.clone(); router.register_middleware(move |req: &Message, next: Next<'_>| -> Result<Message, RepeError> { h.fetch_add(1, Ordering::SeqCst); next.run(req) }); }
+                    }
+                }
+                let has_mw = order.contains(&3);
+                // on the orders after the first, only a thinned path set (the resolution logic does not depend on the order; the middleware wrapping does)
+                for (pi, path) in paths.iter().enumerate() {
+                    if oi > 0 && oi + 1 < orders.len() && pi % 7 != oi % 7 { continue; }
+                    cases += 1;
+                    let want: u8 = if exact.contains(&path.as_str()) { 0 } else if mounted("/r", path) { 1 } else if mounted("/s", path) { 2 } else { 9 };
+                    let got = router.get(path);
+                    if got.is_some() != (want != 9) { return Err(format!("order {order:?}: Router::get({path:?}) is_some={} but the oracle says kind {want}", got.is_some())); }
+                    let Some(handler) = got else { continue };
+                    let req = Message::builder().id(5).query_str(path).body_json(&json!(7)).map_err(|e| e.to_string())?.build();
+                    let before = hits.load(Ordering::SeqCst);
+                    match want {
+                        0 => {
+                            let resp = handler.handle(&req).map_err(|e| format!("exact route {path:?} failed: {e}"))?;
+                            let val: Value = serde_json::from_slice(&resp.body).map_err(|e| e.to_string())?;
+                            if resp.header.ec != 0 || val != json!(format!("exact:{path}")) { return Err(format!("order {order:?}: path {path:?} is registered exactly but was answered by something else: ec={} body={val}", resp.header.ec)); }
+                        }
+                        1 => {
+                            let rest = &path["/r".len()..];
+                            // the registry's own convention: "" and "/" both address its root
+                            let Some(toks) = (if rest == "/" { Some(vec![]) } else { tokens(rest) }) else { continue };
+                            // make every parent exist so that the write succeeds iff the registry is handed exactly `rest`
+                            let mut doc = json!({});
+                            { let mut cur = &mut doc; for t in toks.iter().take(toks.len().saturating_sub(1)) { cur.as_object_mut().unwrap().insert(t.clone(), json!({})); cur = cur.get_mut(t).unwrap(); } }
+                            registry.set_root(doc);
+                            let resp = handler.handle(&req).map_err(|e| format!("registry mount {path:?} failed: {e}"))?;
+                            let val: Value = serde_json::from_slice(&resp.body).unwrap_or(Value::Null);
+                            if toks.is_empty() {
+                                // a root write of a non-object is refused; the mount point itself maps to "/"
+                                if resp.header.ec == 0 { return Err(format!("root write of a number through the mount {path:?} was accepted: {val}")); }
+                            } else {
+                                if resp.header.ec != 0 || val["path"] != json!(canonical(&toks)) { return Err(format!("order {order:?}: registry mounted at /r was not handed exactly {rest:?} for path {path:?}: ec={} response={val} body={:?}", resp.header.ec, String::from_utf8_lossy(&resp.body))); }
+                                let back = registry.read_value(&canonical(&toks)).map_err(|e| format!("read back of {:?} failed: {e}", canonical(&toks)))?;
+                                if back != json!(7) { return Err(format!("value written through {path:?} is not at {:?}", canonical(&toks))); }
+                            }
+                        }
+                        _ => {
+                            let rest = &path["/s".len()..];
+                            let Some(toks) = tokens(rest) else { continue };
+                            seen.lock().unwrap().clear();
+                            let resp = handler.handle(&req).map_err(|e| format!("struct mount {path:?} failed: {e}"))?;
+                            let s = seen.lock().unwrap().clone();
+                            if resp.header.ec != 0 || s.len() != 1 || s[0] != toks { return Err(format!("order {order:?}: struct mounted at /s saw segments {s:?} for path {path:?}; RFC 6901 tokens of {rest:?} are {toks:?} (ec={})", resp.header.ec)); }
+                        }
+                    }
+                    let ran = hits.load(Ordering::SeqCst) - before;
+                    let calls = if want == 1 && tokens(&path["/r".len()..]).is_some() { 1 } else if want == 1 { 0 } else { 1 };
+                    if calls == 1 && ran != has_mw as usize { return Err(format!("order {order:?}: the forwarding middleware ran {ran} times for one request to {path:?} (kind {want}); expected {}", has_mw as usize)); }
+                }
+            }
+            // ---- owned vs borrowed vs middleware-wrapped, built-in handler kinds x body formats x bodies ----
+            #[derive(serde::Serialize, serde::Deserialize)]
+            struct P { a: i64 }
+            let build = |mw: usize| {
+                let mut r = Router::new()
+                    .with_json("/json", |v| if v == json!(13) { Err((repe::ErrorCode::InvalidBody, "thirteen".into())) } else { Ok(json!({"got": v})) })
+                    .with_typed("/typed", |p: P| Ok::<_, (repe::ErrorCode, String)>(P { a: p.a + 1 }))
+                    .with_typed_slice("/slice", |x: Vec<f64>| Ok::<_, (repe::ErrorCode, String)>(x.iter().map(|y| y * 2.0).collect::<Vec<f64>>()))
+                    .with_typed_slice_ref("/sliceref", |x: &[u32]| Ok::<_, (repe::ErrorCode, String)>(x.iter().map(|y| y.wrapping_add(1)).collect::<Vec<u32>>()));
+                for _ in 0..mw { r.register_middleware(|req: &Message, next: Next<'_>| -> Result<Message, RepeError> { next.run(req) }); }
+                r
+            };
+            let routers = [build(0), build(1), build(3)];
+            let mut bodies: Vec<Vec<u8>> = vec![vec![], b"7".to_vec(), b"13".to_vec(), b"{\"a\":4}".to_vec(), b"{\"a\":".to_vec(), vec![0xff, 0xfe], b" 7 ".to_vec(), b"\"x\"".to_vec()];
+            bodies.push(beve::to_vec(&json!({"a": 4})).unwrap());
+            bodies.push(beve::to_vec(&vec![1.5f64, -2.0]).unwrap());
+            bodies.push(beve::to_vec(&vec![1u32, u32::MAX]).unwrap());
+            bodies.push(beve::to_vec(&Vec::<f64>::new()).unwrap());
+            { let mut t = beve::to_vec(&vec![1.5f64, -2.0]).unwrap(); t.pop(); bodies.push(t); }
+            let formats: [u16; 7] = [0, 1, 2, 3, 4, 999, u16::MAX];
+            // the dispatch layer echoes the request query into a response whose query is empty (documented on HandlerErased);
+            // responses are compared after that step, which is where a client sees them
+            let show = |r: &Result<Message, RepeError>, rq: &[u8]| match r { Ok(m) => format!("Ok(ec={} qf={} bf={} q={:?} body={:?})", m.header.ec, m.header.query_format, m.header.body_format, if m.query.is_empty() { rq } else { &m.query[..] }, m.body), Err(e) => format!("Err({e})") };
+            for path in ["/json", "/typed", "/slice", "/sliceref"] {
+                for &bf in &formats { for body in &bodies {
+                    let mut req = Message::builder().id(9).query_str(path).body_bytes(body.clone()).build();
+                    req.header.body_format = bf;
+                    let wire = req.to_vec();
+                    let view = MessageView::from_slice(&wire).map_err(|e| e.to_string())?;
+                    let ctx = repe::CallContext::detached(path);
+                    let mut outs = Vec::new();
+                    for r in &routers {
+                        let h = r.get(path).ok_or("route missing")?;
+                        outs.push(("owned", show(&h.handle(&req), &req.query)));
+                        outs.push(("owned+ctx", show(&h.handle_with_ctx(&req, &ctx), &req.query)));
+                        outs.push(("borrowed", show(&h.handle_view(&view, &ctx), &req.query)));
+                    }
+                    if let Some(bad) = outs.iter().find(|o| o.1 != outs[0].1) {
+                        return Err(format!("{path} body_format={bf} body={body:?}: the {} path answered {} but the owned path answered {}", bad.0, bad.1, outs[0].1));
+                    }
+                    cases += 1;
+                } }
+            }
+            Ok(format!("{cases} route-shape cases held ({} paths, {} registration orders)", paths.len(), orders.len()))
+        }
+        "registry_sweep" => {
+            // Bounded stand-in for C14: every sequence of length <= `len` over a fixed alphabet of reads, writes,
+            // calls, empty-body requests, registrations and merges, through the public Registry API, against a
+            // plain JSON document plus a set of callables (an independent RFC 6901 implementation).
+            use repe::{ErrorCode, Registry};
+            use serde_json::{json, Map, Value};
+            use std::sync::{Arc, Mutex};
+            let len = v.get("len").and_then(|x| x.as_u64()).unwrap_or(3) as usize;
+            // ---- model ----
+            fn tokens(ptr: &str) -> Result<Vec<String>, ()> {
+                if ptr.is_empty() || ptr == "/" { return Ok(vec![]); }
+                if !ptr.starts_with('/') { return Err(()); }
+                let mut out = Vec::new();
+                for raw in ptr[1..].split('/') {
+                    let b: Vec<char> = raw.chars().collect();
+                    let mut t = String::new();
+                    let mut i = 0;
+                    while i < b.len() {
+                        if b[i] == '~' { match b.get(i + 1) { Some('0') => t.push('~'), Some('1') => t.push('/'), _ => return Err(()) } i += 2; }
+                        else { t.push(b[i]); i += 1; }
+                    }
+                    out.push(t);
+                }
+                Ok(out)
+            }
+            fn canonical(toks: &[String]) -> String {
+                if toks.is_empty() { return "/".into(); }
+                toks.iter().map(|t| format!("/{}", t.replace('~', "~0").replace('/', "~1"))).collect()
+            }
+            fn get<'a>(doc: &'a Value, toks: &[String]) -> Option<&'a Value> {
+                let mut cur = doc;
+                for t in toks {
+                    cur = match cur { Value::Object(m) => m.get(t)?, Value::Array(a) => a.get(t.parse::<usize>().ok()?)?, _ => return None };
+                }
+                Some(cur)
+            }
+            fn get_mut<'a>(doc: &'a mut Value, toks: &[String]) -> Option<&'a mut Value> {
+                let mut cur = doc;
+                for t in toks {
+                    cur = match cur { Value::Object(m) => m.get_mut(t)?, Value::Array(a) => a.get_mut(t.parse::<usize>().ok()?)?, _ => return None };
+                }
+                Some(cur)
+            }
+            #[derive(Clone, Debug, PartialEq)]
+            enum Out { Val(Value), WroteAt(String), NotFound, InvalidBody, Other(u32) }
+            #[derive(Clone)]
+            struct Model { doc: Value, funcs: Vec<String>, calls: Vec<(String, Value)> }
+            impl Model {
+                fn dispatch(&mut self, p: &str, body: Option<Value>) -> Out {
+                    let Ok(toks) = tokens(p) else { return Out::NotFound };
+                    let canon = canonical(&toks);
+                    let is_fn = !toks.is_empty() && self.funcs.contains(&canon);
+                    match body {
+                        None => {
+                            if is_fn { return Out::Val(json!({"type": "function", "path": canon})); }
+                            match get(&self.doc, &toks) { Some(x) => Out::Val(x.clone()), None => Out::NotFound }
+                        }
+                        Some(b) => {
+                            if is_fn { self.calls.push((canon.clone(), b.clone())); return Out::Val(json!({"called": canon, "with": b})); }
+                            if toks.is_empty() {
+                                let Value::Object(o) = b else { return Out::InvalidBody };
+                                if !self.doc.is_object() { self.doc = json!({}); }
+                                for (k, x) in o { self.doc.as_object_mut().unwrap().insert(k, x); }
+                                return Out::WroteAt("/".into());
+                            }
+                            let (last, parents) = toks.split_last().unwrap();
+                            match get_mut(&mut self.doc, parents) {
+                                Some(Value::Object(m)) => { m.insert(last.clone(), b); Out::WroteAt(canon) }
+                                Some(Value::Array(a)) => match last.parse::<usize>().ok().and_then(|i| a.get_mut(i)) { Some(slot) => { *slot = b; Out::WroteAt(canon) } None => Out::NotFound },
+                                _ => Out::NotFound,
+                            }
+                        }
+                    }
+                }
+            }
+            fn class(code: ErrorCode) -> Out { match code { ErrorCode::MethodNotFound => Out::NotFound, ErrorCode::InvalidBody => Out::InvalidBody, other => Out::Other(other as u32) } }
+            // ---- operation alphabet ----
+            #[derive(Clone, Debug)]
+            enum Op { Req(&'static str, Option<Value>), Merge(Value) }
+            let pointers = ["", "/", "/a", "/a/b", "/a/n", "/arr/1", "/arr/7", "/arr/x", "/s/t", "/c~1d", "/t~0", "/u~01", "/f", "/a/g~1h", "/zz/y", "/a~", "/a~2b", "a", "/a/"];
+            let mut ops: Vec<Op> = Vec::new();
+            for p in pointers { ops.push(Op::Req(p, None)); }
+            for p in pointers { for val in [json!(5), json!({"b": {"k": 1}})] { ops.push(Op::Req(p, Some(val))); } }
+            for p in ["/a", "/f", "/a/b", ""] { ops.push(Op::Req(p, Some(Value::Null))); }
+            ops.push(Op::Req("/a", Some(json!("str"))));
+            ops.push(Op::Req("/arr", Some(json!({"o": 1}))));
+            ops.push(Op::Merge(json!({"a": 9, "q": [1]})));
+            let n = ops.len();
+            let probe: Vec<&str> = pointers.iter().copied().filter(|p| tokens(p).is_ok()).collect();
+            let mut idx = vec![0usize; len];
+            let mut count = 0u64;
+            loop {
+                let calls: Arc<Mutex<Vec<(String, Value)>>> = Arc::new(Mutex::new(Vec::new()));
+                let reg = Registry::new();
+                let init = json!({"a": {"b": 1}, "arr": [10, 20], "s": "str", "c/d": 3, "t~": 4, "u~1": 6, "u/": 7});
+                reg.set_root(init.clone());
+                for f in ["/f", "/a/g~1h"] {
+                    let c = calls.clone();
+                    let name = f.to_string();
+                    reg.register_function(f, move |b: Option<Value>| { let b = b.unwrap_or(Value::Null); c.lock().unwrap().push((name.clone(), b.clone())); Ok(json!({"called": name, "with": b})) }).map_err(|e| e.to_string())?;
+                }
+                let mut model = Model { doc: init, funcs: vec!["/f".into(), "/a/g~1h".into()], calls: vec![] };
+                for (step, &i) in idx.iter().enumerate() {
+                    let op = ops[i].clone();
+                    let ctx = || format!("history {:?} step {step}", idx.iter().map(|j| format!("{:?}", ops[*j])).collect::<Vec<_>>());
+                    let before: Vec<Option<Value>> = probe.iter().map(|p| reg.dispatch(p, None).ok()).collect();
+                    match op.clone() {
+                        Op::Req(p, body) => {
+                            let want = model.dispatch(p, body.clone());
+                            let got = match reg.dispatch(p, body.clone()) {
+                                Ok(x) => if body.is_some() && x.get("status") == Some(&json!("ok")) && x.as_object().map(|o| o.len()) == Some(2) { Out::WroteAt(x["path"].as_str().unwrap_or("?").to_string()) } else { Out::Val(x) },
+                                Err(e) => class(e.code()),
+                            };
+                            if got != want { return Err(format!("{}: dispatch({p:?}, {body:?}) answered {got:?}; a JSON document plus callables answers {want:?}", ctx())); }
+                            // laws stated by the property, checked on the real registry alone
+                            let after: Vec<Option<Value>> = probe.iter().map(|q| reg.dispatch(q, None).ok()).collect();
+                            if body.is_none() && after != before { return Err(format!("{}: an empty-body request to {p:?} changed the registry", ctx())); }
+                            if let (Some(b), Out::WroteAt(at), Ok(pt)) = (&body, &got, tokens(p)) {
+                                if !pt.is_empty() {
+                                    if reg.dispatch(p, None).ok().as_ref() != Some(b) { return Err(format!("{}: the value written to {p:?} (answered path {at}) is not returned by the next read", ctx())); }
+                                    for (k, q) in probe.iter().enumerate() {
+                                        let qt = tokens(q).unwrap();
+                                        let related = qt.len() >= pt.len() && qt[..pt.len()] == pt[..] || pt.len() >= qt.len() && pt[..qt.len()] == qt[..];
+                                        if !related && before[k] != after[k] { return Err(format!("{}: writing {p:?} changed the unrelated pointer {q:?}: {:?} -> {:?}", ctx(), before[k], after[k])); }
+                                    }
+                                }
+                            }
+                        }
+                        Op::Merge(obj) => {
+                            let Value::Object(o) = obj else { unreachable!() };
+                            let m: Map<String, Value> = o.clone();
+                            reg.merge_root(m).map_err(|e| format!("{}: merge_root failed: {e}", ctx()))?;
+                            if !model.doc.is_object() { model.doc = json!({}); }
+                            for (k, x) in o { model.doc.as_object_mut().unwrap().insert(k, x); }
+                        }
+                    }
+                    let doc = reg.read_value("").map_err(|e| format!("{}: reading the root failed: {e}", ctx()))?;
+                    if doc != model.doc { return Err(format!("{}: after {op:?} the registry holds {doc} but a JSON document would hold {}", ctx(), model.doc)); }
+                    if *calls.lock().unwrap() != model.calls { return Err(format!("{}: callables were invoked as {:?}; expected exactly {:?}", ctx(), calls.lock().unwrap(), model.calls)); }
+                }
+                count += 1;
+                let mut k = 0;
+                loop {
+                    if k == len { return Ok(format!("{count} histories of length {len} over {n} operations held")); }
+                    idx[k] += 1;
+                    if idx[k] < n { break; }
+                    idx[k] = 0;
+                    k += 1;
+                }
+            }
+        }
         other => panic!("unknown replay entry `{other}`"),
     }
 }
